@@ -230,6 +230,24 @@ def corpus(chk):
     chk.notes["corpus_files_checked"] = n
 
 
+def stop_alpha_grid(chk, pid="C01"):
+    """colour spelling (own alpha or not) x stop-opacity x shape opacity, compiled to COLRv1 and compared with the source."""
+    for k, (label, glyphs) in enumerate(S.stop_alpha_grid()):
+        flavour = CC.FLAVOURS[k % len(CC.FLAVOURS)]
+        cfgkw = dict(color_format=flavour, keep_glyph_names=True, reuse_tolerance=0.1, clip_to_viewbox=False)
+        cfg = build.base_config(**cfgkw)
+        srcs = CC.sources_from(glyphs)
+        replay = {"kind": "stop-alpha", "label": label, "config": {a: str(b) for a, b in cfgkw.items()}, "svgs": [x.svg_text for x in srcs]}
+        chk.case(key=("stop-alpha", label), nontrivial=True)
+        chk.traces_validated += 1
+        try:
+            _, font = build.build(cfg, srcs, already_pico=True)
+        except Exception as e:
+            chk.violation(f"valid sources fail to compile [{label}] ({flavour}): {type(e).__name__}: {str(e)[:200]}", replay)
+            continue
+        CC.check_font_pictures(chk, font, cfg, srcs, glyphs, 0.1, f"alpha grid [{label}] [{flavour}]", replay, deltas=CC.layer_deltas(glyphs, cfg, 0.1))
+
+
 def run(chk):
     quick = chk.tier == "quick"
     chk.rule = (
@@ -256,6 +274,7 @@ def run(chk):
     coincidence_scenarios(chk, 60 if quick else 2000)
     transform_fill_grid(chk)
     reuse_fill_grid(chk)
+    stop_alpha_grid(chk)
     corpus(chk)
     radial_overflow_finding(chk)
     compile_trace.run(chk, 30 if quick else 400)
